@@ -99,6 +99,13 @@ check("C08", "model_checking",
       "harness recorder (negative control each run).",
       "TLA+ spec (Keys) + TLC MC of the validity table + TLC observation-set validation with independent oracles", "§4 C08")
 
+check("C10", "model_checking",
+      "MC_Headers checks on all 52 x 52 header pairs that the text grammar (TextFormat.tla) is prefix-free and never accepts a text of another "
+      "(kind, version); every valid value of 15 kinds x 6 backends is offered to 18 parsers x 6 backends and TLC validates each outcome "
+      "(accept iff same version and same PASERK text kind); header rewriting of authenticated wrapped keys is validated against L0.",
+      "Trusted: TLC, Json reader, harness recorder (negative control each run). Wrong-length key bytes are C08's observations.",
+      "TLA+ spec (TextFormat, HeaderTable, Ideal) + TLC exhaustive MC + TLC observation-set and trace validation", "§4 C10")
+
 
 def na(pid, reason):
     NOT_APPLICABLE[pid] = reason
